@@ -287,7 +287,14 @@ func (v *Value) Len() int {
 func (v *Value) Slice(i, j int) *Value {
 	switch v.getResolvedValue().Kind() {
 	case reflect.Array, reflect.Slice:
-		return AsValue(v.getResolvedValue().Slice(i, j).Interface())
+		rv := v.getResolvedValue()
+		if rv.Kind() == reflect.Array && !rv.CanAddr() {
+			// reflect cannot slice an array that is not addressable (an array passed by value): slice a copy
+			cp := reflect.New(rv.Type()).Elem()
+			cp.Set(rv)
+			rv = cp
+		}
+		return AsValue(rv.Slice(i, j).Interface())
 	case reflect.String:
 		runes := []rune(v.getResolvedValue().String())
 		return AsValue(string(runes[i:j]))
